@@ -697,7 +697,7 @@ pub fn main(args: &Args) -> ! {
         for cfg in ["init1452", "mtudoff1452", "default", "upper9000"] {
             for (m0, m1) in [(1452usize, 1200usize), (9000, 1200), (1452, 1280)] {
                 for at in if thorough { (8..80).collect::<Vec<u64>>() } else { vec![10, 12, 14, 16, 18, 20, 24, 28, 32, 40] } {
-                    bh.push(crate::checks::c13::Case { cfg: cfg.into(), wl: Wl::W13, m0, at, m1, rebind: false });
+                    bh.push(crate::checks::c13::Case { cfg: cfg.into(), wl: Wl::W13, m0, at, m1, rebind: false, close_long: None });
                 }
             }
         }
@@ -758,7 +758,7 @@ fn replay(v: &Value) -> ! {
             println!("{:?}", run_pair(Instant::now(), &m, r["a"].as_u64().unwrap_or(0) as usize, r["b"].as_u64().unwrap_or(0) as usize));
         }
         "blackhole" => {
-            let c = crate::checks::c13::Case { cfg: r["cfg"].as_str().unwrap_or("init1452").into(), wl: Wl::W13, m0: r["m0"].as_u64().unwrap_or(1452) as usize, at: r["at"].as_u64().unwrap_or(12), m1: r["m1"].as_u64().unwrap_or(1200) as usize, rebind: false };
+            let c = crate::checks::c13::Case { cfg: r["cfg"].as_str().unwrap_or("init1452").into(), wl: Wl::W13, m0: r["m0"].as_u64().unwrap_or(1452) as usize, at: r["at"].as_u64().unwrap_or(12), m1: r["m1"].as_u64().unwrap_or(1200) as usize, rebind: false, close_long: None };
             let (_, v, _) = crate::checks::c13::run_case(Instant::now(), &c, true);
             println!("violations={v:?}");
         }
